@@ -401,13 +401,17 @@ def c01i(ctx):
               fail='bbox_equals does not compare every edge with the same edge of the other rectangle (compared: %s%s): rectangles that '
                    'differ in an unchecked edge count as equal and tiles are handed out unscaled for another extent' % (
                        sorted(pairs), '; other terms: %s' % foreign if foreign else ''))
-    users = [('mapproxy/image/transform.py:ImageTransformer._no_transformation_needed', 'src_bbox', 'dst_bbox'),
-             ('mapproxy/layer.py:CacheMapLayer._image', 'bbox', 'src_bbox')]
+    users = [('mapproxy/image/transform.py:ImageTransformer._no_transformation_needed', 'dst_bbox', 'src_bbox'),
+             ('mapproxy/layer.py:CacheMapLayer._image', 'query.bbox', 'src_bbox')]
     for qn, x, y in users:
         f = ctx.fn(qn)
         calls = [c for c in f.walk() if is_call(c, 'bbox_equals')]
-        ok = bool(calls) and all(len(c.args) >= 2 and (same(c.args[0], x) and same(c.args[1], y) or same(c.args[0], y) and same(c.args[1], x))
-                                 for c in calls)
+        # one argument is the rectangle that was asked for, the other one the rectangle of the tiles (closed forms)
+        def requested(e):
+            t = f.ctext(e)
+            return t in ('query.bbox', 'dst_bbox') or t == x
+        ok = bool(calls) and all(len(c.args) >= 2 and requested(c.args[0]) != requested(c.args[1]) and
+                                 any(f.ctext(a) == y or 'src_bbox' in unparse(a) or 'get_affected' in f.ctext(a) for a in c.args[:2]) for c in calls)
         ctx.check(ok, '%s:compares-request-with-tiles' % f.short, 'the shortcut compares the requested rectangle with the rectangle of the tiles', f)
 
 
